@@ -1,0 +1,313 @@
+//go:build verif
+
+package k8s
+
+// Verification hooks (build tag `verif` only; not part of any normal build).
+//
+// They let a harness drive a Provider built by the real NewProvider without a running informer:
+// the pod store is the informer's own indexer (with the index function NewProvider registered),
+// events are delivered the way client-go's processDeltas does it (store mutation first, then the
+// provider's own cacheInvalidationHandler, synchronously), lookups go through Peek. No provider
+// logic is replicated here.
+
+import (
+	"context"
+	"fmt"
+	"io"
+	"regexp"
+	"sync"
+	"time"
+
+	"github.com/sirupsen/logrus"
+	core_v1 "k8s.io/api/core/v1"
+	"k8s.io/apimachinery/pkg/api/errors"
+	meta_v1 "k8s.io/apimachinery/pkg/apis/meta/v1"
+	"k8s.io/apimachinery/pkg/watch"
+	"k8s.io/client-go/kubernetes/fake"
+	kube_testing "k8s.io/client-go/testing"
+	"k8s.io/client-go/tools/cache"
+
+	"github.com/atlassian/gostatsd"
+)
+
+// VerifPod holds the pod fields the provider looks at.
+type VerifPod struct {
+	Namespace, Name   string
+	IP, HostIP, Phase string
+	HostNetwork       bool
+	Deleting          bool
+	Labels            map[string]string
+	Annotations       map[string]string
+}
+
+func (vp VerifPod) pod() *core_v1.Pod {
+	p := &core_v1.Pod{
+		ObjectMeta: meta_v1.ObjectMeta{
+			Namespace:   vp.Namespace,
+			Name:        vp.Name,
+			Labels:      vp.Labels,
+			Annotations: vp.Annotations,
+		},
+		Spec:   core_v1.PodSpec{HostNetwork: vp.HostNetwork},
+		Status: core_v1.PodStatus{PodIP: vp.IP, HostIP: vp.HostIP, Phase: core_v1.PodPhase(vp.Phase)},
+	}
+	if vp.Deleting {
+		t := meta_v1.NewTime(time.Unix(1600000000, 0))
+		p.DeletionTimestamp = &t
+	}
+	return p
+}
+
+// verifInformer wraps the provider's informer so that a callback can run right after the
+// provider has read the index inside instanceFromInformer (to script the lookup/update race).
+type verifInformer struct {
+	cache.SharedIndexInformer
+	afterRead func()
+}
+
+func (vi *verifInformer) GetIndexer() cache.Indexer {
+	return &verifIndexer{Indexer: vi.SharedIndexInformer.GetIndexer(), vi: vi}
+}
+
+type verifIndexer struct {
+	cache.Indexer
+	vi *verifInformer
+}
+
+func (x *verifIndexer) ByIndex(indexName, indexedValue string) ([]interface{}, error) {
+	objs, err := x.Indexer.ByIndex(indexName, indexedValue)
+	if f := x.vi.afterRead; f != nil {
+		x.vi.afterRead = nil
+		f()
+	}
+	return objs, err
+}
+
+// VerifProvider is a Provider plus what is needed to drive it.
+type VerifProvider struct {
+	P         *Provider
+	clientset *fake.Clientset
+	inf       *verifInformer
+	handler   cache.ResourceEventHandler
+	cancel    context.CancelFunc
+	barrierN  int
+	watching  chan struct{} // closed when the informer's watch on pods is established
+}
+
+// VerifNewProvider builds a provider through NewProvider on a fake clientset. The informer is not
+// started: use VerifApply. (VerifStart switches to the real informer: use VerifClientApply.)
+func VerifNewProvider(annotationRegex, labelRegex *regexp.Regexp) (*VerifProvider, error) {
+	logger := logrus.New()
+	logger.SetOutput(io.Discard)
+	cs := fake.NewSimpleClientset()
+	// The fake clientset's watch does not replay history: an object created after the informer's List but
+	// before its Watch call would be lost. Signal when the watch exists (VerifStart waits for it).
+	watching := make(chan struct{})
+	var once sync.Once
+	cs.PrependWatchReactor("pods", func(action kube_testing.Action) (bool, watch.Interface, error) {
+		w, err := cs.Tracker().Watch(action.GetResource(), action.GetNamespace())
+		once.Do(func() { close(watching) })
+		return true, w, err
+	})
+	p, err := NewProvider(logger, cs, PodInformerOptions{ResyncPeriod: 0, WatchCluster: true}, annotationRegex, labelRegex)
+	if err != nil {
+		return nil, err
+	}
+	inf := &verifInformer{SharedIndexInformer: p.podsInf}
+	p.podsInf = inf
+	return &VerifProvider{P: p, clientset: cs, inf: inf, handler: cacheInvalidationHandler{p: p}, watching: watching}, nil
+}
+
+// VerifApply delivers one event synchronously, as processDeltas would:
+//
+//	"add"/"update": in the store ? Update + OnUpdate(old, new) : Add + OnAdd(new)
+//	"delete":       Delete + OnDelete(pod)
+//	"tombstone":    Delete + OnDelete(DeletedFinalStateUnknown{key, pod})
+//	"resync":       OnUpdate(p, p) for every stored pod
+func (v *VerifProvider) VerifApply(kind string, vp VerifPod) error {
+	indexer := v.inf.SharedIndexInformer.GetIndexer()
+	switch kind {
+	case "add", "update":
+		obj := vp.pod()
+		old, exists, err := indexer.Get(obj)
+		if err != nil {
+			return err
+		}
+		if exists {
+			if err := indexer.Update(obj); err != nil {
+				return err
+			}
+			v.handler.OnUpdate(old, obj)
+		} else {
+			if err := indexer.Add(obj); err != nil {
+				return err
+			}
+			v.handler.OnAdd(obj)
+		}
+	case "delete", "tombstone":
+		obj := vp.pod()
+		if err := indexer.Delete(obj); err != nil {
+			return err
+		}
+		if kind == "tombstone" {
+			key, err := cache.MetaNamespaceKeyFunc(obj)
+			if err != nil {
+				return err
+			}
+			v.handler.OnDelete(cache.DeletedFinalStateUnknown{Key: key, Obj: obj})
+		} else {
+			v.handler.OnDelete(obj)
+		}
+	case "resync":
+		for _, obj := range indexer.List() {
+			v.handler.OnUpdate(obj, obj)
+		}
+	default:
+		return fmt.Errorf("unknown event kind %q", kind)
+	}
+	return nil
+}
+
+// VerifLookup is Peek.
+func (v *VerifProvider) VerifLookup(ip string) *gostatsd.Instance {
+	inst, _ := v.P.Peek(gostatsd.Source(ip))
+	return inst
+}
+
+// VerifRaceLookup is a lookup during which `during` runs right after the provider has read the
+// informer's index (if the lookup is a memo hit the index is not read; `during` then runs after it).
+func (v *VerifProvider) VerifRaceLookup(ip string, during func()) *gostatsd.Instance {
+	v.inf.afterRead = during
+	inst, _ := v.P.Peek(gostatsd.Source(ip))
+	if v.inf.afterRead != nil {
+		v.inf.afterRead = nil
+		during()
+	}
+	return inst
+}
+
+// VerifIndexCount is the number of stored pods indexed at ip.
+func (v *VerifProvider) VerifIndexCount(ip string) int {
+	objs, _ := v.inf.SharedIndexInformer.GetIndexer().ByIndex(PodsByIPIndexName, ip)
+	return len(objs)
+}
+
+// --- the real informer on the fake clientset (thorough tier) ---
+
+const (
+	verifBarrierNS   = "verif-barrier"
+	verifBarrierName = "sentinel"
+)
+
+func verifBarrierPod(n int) *core_v1.Pod {
+	return VerifPod{Namespace: verifBarrierNS, Name: verifBarrierName, IP: fmt.Sprintf("barrier-%d", n), HostIP: "barrier-host", Phase: "Running"}.pod()
+}
+
+// VerifStart runs the provider (Run starts the informer) and waits for the initial sync.
+func (v *VerifProvider) VerifStart(timeout time.Duration) error {
+	ctx, cancel := context.WithCancel(context.Background())
+	v.cancel = cancel
+	go v.P.Run(ctx)
+	deadline := time.Now().Add(timeout)
+	for !v.inf.SharedIndexInformer.HasSynced() {
+		if time.Now().After(deadline) {
+			return fmt.Errorf("informer did not sync")
+		}
+		time.Sleep(200 * time.Microsecond)
+	}
+	select {
+	case <-v.watching:
+	case <-time.After(timeout):
+		return fmt.Errorf("informer did not start watching")
+	}
+	if _, err := v.clientset.CoreV1().Pods(verifBarrierNS).Create(ctx, verifBarrierPod(0), meta_v1.CreateOptions{}); err != nil {
+		return err
+	}
+	for v.VerifLookup("barrier-0") == nil {
+		if time.Now().After(deadline) {
+			return fmt.Errorf("sentinel pod did not arrive")
+		}
+		time.Sleep(200 * time.Microsecond)
+	}
+	return nil
+}
+
+// VerifStop stops Run and the informer.
+func (v *VerifProvider) VerifStop() {
+	if v.cancel != nil {
+		v.cancel()
+	}
+}
+
+// VerifBarrier returns once the provider's own event handler has handled every event sent before
+// the call: a sentinel pod's IP is changed, and the memoised answer for its previous IP can only
+// turn into nil after the provider's handler has seen that update (handlers see events in order).
+func (v *VerifProvider) VerifBarrier(timeout time.Duration) error {
+	prev := fmt.Sprintf("barrier-%d", v.barrierN)
+	if v.VerifLookup(prev) == nil {
+		return fmt.Errorf("sentinel lost")
+	}
+	v.barrierN++
+	if _, err := v.clientset.CoreV1().Pods(verifBarrierNS).Update(context.Background(), verifBarrierPod(v.barrierN), meta_v1.UpdateOptions{}); err != nil {
+		return err
+	}
+	deadline := time.Now().Add(timeout)
+	for v.VerifLookup(prev) != nil {
+		if time.Now().After(deadline) {
+			return fmt.Errorf("barrier timeout: the sentinel pod's previous IP %s is still answered %v after its IP changed", prev, timeout)
+		}
+		time.Sleep(100 * time.Microsecond)
+	}
+	cur := fmt.Sprintf("barrier-%d", v.barrierN)
+	for v.VerifLookup(cur) == nil {
+		if time.Now().After(deadline) {
+			return fmt.Errorf("barrier timeout")
+		}
+		time.Sleep(100 * time.Microsecond)
+	}
+	return nil
+}
+
+// VerifClientApply sends the event through the API (fake clientset → watch → informer → handlers).
+func (v *VerifProvider) VerifClientApply(kind string, vp VerifPod) error {
+	ctx := context.Background()
+	pods := v.clientset.CoreV1().Pods(vp.Namespace)
+	switch kind {
+	case "add", "update":
+		obj := vp.pod()
+		_, err := pods.Update(ctx, obj, meta_v1.UpdateOptions{})
+		if errors.IsNotFound(err) {
+			_, err = pods.Create(ctx, obj, meta_v1.CreateOptions{})
+		}
+		return err
+	case "delete", "tombstone":
+		err := pods.Delete(ctx, vp.Name, meta_v1.DeleteOptions{})
+		if errors.IsNotFound(err) {
+			return nil
+		}
+		return err
+	case "resync":
+		return nil
+	}
+	return fmt.Errorf("unknown event kind %q", kind)
+}
+
+// VerifChannelLookup asks through IpSink / InfoSource (needs VerifStart).
+func (v *VerifProvider) VerifChannelLookup(ip string, timeout time.Duration) (*gostatsd.Instance, error) {
+	t := time.NewTimer(timeout)
+	defer t.Stop()
+	select {
+	case v.P.IpSink() <- gostatsd.Source(ip):
+	case <-t.C:
+		return nil, fmt.Errorf("IpSink timeout")
+	}
+	select {
+	case info := <-v.P.InfoSource():
+		if string(info.IP) != ip {
+			return nil, fmt.Errorf("answer for %q, asked %q", info.IP, ip)
+		}
+		return info.Instance, nil
+	case <-t.C:
+		return nil, fmt.Errorf("InfoSource timeout")
+	}
+}
